@@ -654,6 +654,20 @@ func parseSemCorpus(line string) (semCase, bool) {
 func runC12(c *Ctx) {
 	r := c.Res
 	util.ENABLE_LOGGING = false
+	defer func() {
+		// Tier B: the real mrp + local job manager + stage processes; overlap of job
+		// intervals weighted by the reservations recorded in _jobinfo
+		if r.Histogram == nil {
+			r.Histogram = map[string]int{}
+		}
+		if env, err := tbSetup(c); err != nil {
+			r.note("tier B unavailable: %v", err)
+		} else if c.Thorough {
+			tbC12(c, env, 16)
+		} else {
+			tbC12(c, env, 4)
+		}
+	}()
 	r.Rule = "ResourceSemaphore: op sequences (corpus + PRNG; client-protocol and raw-API streams; sizes 1..40, 5..40 ops; amounts 0, small, =limit, >limit, negative in the raw stream; UpdateActual/UpdateSize/UpdateFreeUsed below, at and above the limit) executed on the real semaphore with one goroutine per Acquire and compared with Martian.Semaphore.step after every op (CurrentSize, Reserved, QueueLength, grants/rejections/panic/return value); non-trivial = at least one request had to queue; distinct = distinct (size, op sequence). Monitors on the real code after every op: grant fits, FIFO, no lost wake-up, Reserved = sum held, Reserved <= limit. + concurrent stress rounds. MaxJobsSemaphore: op sequences vs MJ.step + |running| <= limit + no blocked waiter while there is room. GetSystemReqs: dyadic-rational requests vs Martian.Semaphore.normalize. LocalJobManager.Enqueue: real /bin/sh jobs, start/end log replayed against the limits with the model's Acquire amounts"
 
 	reported := map[string]int{}
